@@ -43,6 +43,8 @@ def parse_text(text=None, files=None):
     from decaylanguage import DecFileParser
 
     with impl(ID, "construct"):
+        if files is not None and len(files) % 2 == 0:
+            files = [Path(x) for x in files]  # file names may be given as path objects as well as strings
         p = DecFileParser(*files) if files is not None else DecFileParser.from_string(text)
         p.load_additional_decay_models(*EXTRA)
     with impl(ID, "parse"), warnings.catch_warnings():
